@@ -52,7 +52,18 @@ def topology_record(rid, t):
     exprs = dict(compute_helicity_angles(p, t))
     masses = compute_invariant_masses(p, t)
     proj = topo.project_kinematics({**exprs, **masses})
-    return {"kind": "topology", "id": rid, "tree": [list(s) for s in topo.tree_of(t)], **proj}, {**exprs, **masses}
+    from ampform.helicity.decay import is_opposite_helicity_state
+    from ampform.helicity.naming import get_boost_chain_suffix, get_topology_identifier
+
+    suffixes, opposite = [], []
+    for e in t.edges:
+        if e in t.incoming_edge_ids:
+            continue
+        suffixes.append([list(topo.attached(t, e)), topo.parse_name("x" + get_boost_chain_suffix(t, e))[1]])
+        opposite.append([list(topo.attached(t, e)), int(is_opposite_helicity_state(t, e))])
+    ident = get_topology_identifier(t)
+    topo_id = [[int(c) for c in g] for g in ident.split(",")] if ident else []
+    return {"kind": "topology", "id": rid, "tree": [list(s) for s in topo.tree_of(t)], "suffixes": suffixes, "opposite": opposite, "topo_id": topo_id, **proj}, {**exprs, **masses}
 
 
 def raw_exprs(t):
@@ -71,6 +82,20 @@ def adapter_record(rid, initial, permuted):
     ad = HelicityAdapter(initial)
     if permuted:
         ad.permutate_registered_topologies()
+    count = len(ad.registered_topologies)
+    if permuted:
+        ad.permutate_registered_topologies()
+    for t0 in list(ad.registered_topologies)[:2]:
+        ad.register_topology(t0)
+    count_again = len(ad.registered_topologies)
+    # a topology over different final-state ids must be refused
+    fs = sorted(next(iter(ad.registered_topologies)).outgoing_edge_ids)
+    other = topo.permute_leaves(next(iter(ad.registered_topologies)), {fs[-1]: fs[-1] + 50})
+    try:
+        HelicityAdapter(list(ad.registered_topologies)).register_topology(other)
+        refused = 0
+    except ValueError:
+        refused = 1
     merged = topo.project_kinematics(ad.create_expressions())
     tops = []
     for t in ad.registered_topologies:
@@ -78,7 +103,7 @@ def adapter_record(rid, initial, permuted):
         pr = topo.project_kinematics(dict(compute_helicity_angles(p, t)))
         tops.append({"tree": [list(s) for s in topo.tree_of(t)], "angles": pr["angles"]})
     return {
-        "kind": "adapter", "id": rid, "permuted": int(permuted),
+        "kind": "adapter", "id": rid, "permuted": int(permuted), "count": count, "count_again": count_again, "mismatch_refused": refused,
         "initial": [[list(s) for s in topo.tree_of(t)] for t in initial],
         "tops": tops, **merged,
     }
